@@ -4,6 +4,8 @@ import Proofs.C20Sites
 import Generated.C20MapRanges
 import Generated.C20PkgState
 import Generated.C20Resets
+import Generated.C20Sorts
+import Model.SortKeys
 import Drivers.Common
 /-! `vm_c20`: line protocol over `Model.OMap` / `Spec.OMap`.
 
@@ -14,6 +16,10 @@ import Drivers.Common
                                  hand-written tables do not put in order (what makes the `decide` obligations
                                  fail), `-` if none
   probes                       → the names of the clean channels the probe table relies on
+  sorts                        → one entry per regenerated sort over a map-ordered slice:
+                                 <file>|<fn>|<whole|argued|known|TYING>|<comparator text>  joined by " ; "
+  ksort <TAB> asc|desc <TAB> <hex> <hex> …   keys as hex bytes, in collection order → the keys in the order
+                                 `Model.SortKeys.ksort` rebuilds the array in (hex, space separated; `-` if none)
   where get probes the keys a b c d e, idx probes -1 … len+1, and stop is what a `Range`
   callback sees that returns false at the first key `b`.
 -/
@@ -49,6 +55,41 @@ def toSpecOp : Op K V → Spec.OMap.Op K V
   | .set k v => .set k v
   | .delete k => .delete k
 
+
+/-! ### keys as byte strings (hex on the wire: keys may contain spaces) -/
+
+def hexVal (c : Char) : Option Nat :=
+  if '0' ≤ c ∧ c ≤ '9' then some (c.toNat - '0'.toNat)
+  else if 'a' ≤ c ∧ c ≤ 'f' then some (c.toNat - 'a'.toNat + 10)
+  else none
+
+def parseHexList : List Char → Option (List Nat)
+  | [] => some []
+  | [_] => none
+  | a :: b :: r => do
+    let x ← hexVal a
+    let y ← hexVal b
+    let t ← parseHexList r
+    pure ((x * 16 + y) :: t)
+
+/-- `.` stands for the empty key -/
+def parseKey (s : String) : Option (List Nat) := if s == "." then some [] else parseHexList s.toList
+
+def hexDigit (n : Nat) : Char := if n < 10 then Char.ofNat (n + '0'.toNat) else Char.ofNat (n - 10 + 'a'.toNat)
+
+def showKey (k : List Nat) : String :=
+  if k.isEmpty then "." else String.ofList (k.flatMap (fun b => [hexDigit (b / 16), hexDigit (b % 16)]))
+
+def sortStatus (s : Model.Sites.SortFact) : String :=
+  if s.cmp == .whole then "whole"
+  else if C20Sites.sortOK C20Sites.sortArgued [] s then "argued"
+  else if C20Sites.sortOK [] C20Sites.KnownSorts s then "known"
+  else "TYING"
+
+def showSorts : String :=
+  let l := Generated.C20Sorts.sorts.map (fun s => s!"{s.file}|{s.fn}|{sortStatus s}|{s.cmpText}")
+  if l.isEmpty then "-" else " ; ".intercalate l
+
 def showBad : String :=
   let bs := (C20Sites.badSites C20Sites.table C20Sites.KnownSites Generated.C20MapRanges.sites).map
     (fun s => s!"site {s.file} {s.fn} range {s.expr} #{s.ord} ({repr s.summary})")
@@ -61,13 +102,25 @@ def showBad : String :=
   let en := match C20Sites.entryDiff Generated.C20Resets.entry C20Sites.expectedEntry with
     | some d => [s!"entry path {d}"]
     | none => []
-  let all := bs ++ bc ++ sh ++ br ++ up ++ en
+  let ts := (C20Sites.tyingSorts C20Sites.sortArgued C20Sites.KnownSorts Generated.C20Sorts.sorts).map
+    (fun s => s!"tying sort {s.file} {s.fn}: {s.sorter} of {s.target} (collected by range {s.expr}) compares '{s.cmpText}'")
+  let nf := (C20Sites.sortSitesWithoutFact Generated.C20MapRanges.sites Generated.C20Sorts.sorts).map
+    (fun s => s!"sort not found {s.file} {s.fn} range {s.expr}")
+  let ss := Generated.C20Sorts.shape.map (fun s => s!"shape {s}")
+  let all := bs ++ bc ++ sh ++ br ++ up ++ en ++ ts ++ nf ++ ss
   if all.isEmpty then "-" else " ; ".intercalate all
 
 def handle (line : String) : String :=
   match line.splitOn "\t" with
   | ["bad"] => showBad
   | ["probes"] => " ".intercalate (C20Sites.probeChannels C20Sites.probes)
+  | ["sorts"] => showSorts
+  | ["ksort", dir, keys] =>
+      match (if keys.isEmpty then some [] else (keys.splitOn " ").mapM parseKey) with
+      | some ks =>
+          let r := Model.SortKeys.ksort (dir == "desc") ks
+          if r.isEmpty then "-" else " ".intercalate (r.map showKey)
+      | none => "bad-op"
   | ["omap", ops] =>
       match parseOps ops with
       | some ops =>
